@@ -61,7 +61,8 @@ def make_resolver(world, backend_crate, bindings):
             return None
         self_ty = targs[0]
         vt = short(VERSION_TYPE[backend_crate])
-        if self_ty not in (vt, bindings.get("V"), "V"):
+        if self_ty not in (vt, bindings.get("V"), "V") and not re.fullmatch(r"[A-Z][A-Za-z0-9]{0,2}", self_ty):
+            # a composition is always evaluated inside one backend: every version-like type parameter is that backend
             return None
         arg = None
         if len(targs) > 1:
